@@ -85,8 +85,8 @@ func init() {
 			if c.Quick() {
 				runSched(c, "C05", []string{"L1-success-poll-vs-swap", "L2-success-check-vs-swap", "L3-success-poll-vs-melt", "L4-failure-poll-vs-swap-swap", "S10-melt-poll-swap", "S11-failedmelt-poll-remelt-swap", "S12f-meltfails-remelt-swap"}, 2)
 			} else {
-				runSched(c, "C05", []string{"L1-success-poll-vs-swap", "L2-success-check-vs-swap", "L3-success-poll-vs-melt", "L4-failure-poll-vs-swap-swap", "L5-success-poll-vs-check-vs-swap"}, 3)
-				runSched(c, "C05", []string{"S10-melt-poll-swap", "S11-failedmelt-poll-remelt-swap", "S12f-meltfails-remelt-swap", "S12n-meltnotfound-remelt-swap"}, 2)
+				runSchedAll(c, "C05", []string{"L1-success-poll-vs-swap", "L2-success-check-vs-swap", "L3-success-poll-vs-melt", "L4-failure-poll-vs-swap-swap", "L5-success-poll-vs-check-vs-swap"}, 3)
+				runSchedAll(c, "C05", []string{"S10-melt-poll-swap", "S11-failedmelt-poll-remelt-swap", "S12f-meltfails-remelt-swap", "S12n-meltnotfound-remelt-swap"}, 2)
 			}
 		},
 		Worker: dispatchWorker(bfs.Worker(c05All)),
